@@ -96,6 +96,66 @@ def bond_index_rule(chk, src, rule):
                "same index, left=False", line=fi.node.lineno)
 
 
+def config_copy_rule(chk, src, rule, classes=("CompressConfig",)):
+    """abstract run of <Config>.copy(): states are copied all the time (copy, scale, apply, evolve...) and take a copy of their configuration with them; the copy must
+    carry the value of every attribute (in particular the per-bond limits), mutable containers as copies of their own"""
+    from ..syminterp import SymInterp, Sym
+    CFG = "renormalizer/utils/configs.py"
+    for cname in classes:
+        ci = src.cls(CFG, cname)
+        fi = ci.methods.get("copy")
+        init = ci.methods.get("__init__")
+        if fi is None or init is None:
+            raise AnalysisError(f"{CFG}::{cname}: copy / __init__ not found")
+        attrs = []
+        for st in ast.walk(init.node):
+            if isinstance(st, (ast.Assign, ast.AnnAssign)):
+                for t in (st.targets if isinstance(st, ast.Assign) else [st.target]):
+                    if isinstance(t, ast.Attribute) and isinstance(t.value, ast.Name) and t.value.id == "self" and t.attr not in attrs:
+                        attrs.append(t.attr)
+
+        class Val(Sym):
+            def __init__(self, name, of=None):
+                super().__init__(name)
+                self.of = of
+
+            def copy(self):
+                return Val(f"copy({self._name})", of=self)
+        for variant in ("containers set", "containers None"):
+            vals = {a: Val(a) for a in attrs}
+            if variant == "containers None":
+                for a in attrs:
+                    if a in ("max_dims",):
+                        vals[a] = None
+
+            class Cfg(Sym):
+                pass
+            me = Cfg("config", **vals)
+            klass = Sym(cname)
+            klass.__dict__["__new__"] = lambda c: Cfg("new")
+            me.__dict__["__class__"] = klass
+            it = SymInterp(src, None, {})
+            try:
+                new = it.call_function(fi, [me])
+            except Exception as e:      # noqa: BLE001 - reported as the finding
+                chk.ob(rule, f"{cname}.copy [{variant}]", False, fi.where, f"{type(e).__name__}: {e}", "a copy carrying every attribute", line=fi.node.lineno)
+                continue
+            probs = []
+            if new is me or not isinstance(new, Sym):
+                probs.append("the object itself (or no configuration) is returned")
+            else:
+                for a in attrs:
+                    v0, v1 = vals[a], new.__dict__.get(a, "<missing>")
+                    same = v1 is v0 or (isinstance(v1, Val) and v1.of is v0)
+                    if not same:
+                        probs.append(f"attribute {a}: copy has {v1!r}, original {v0!r}")
+                    elif a in ("max_dims", "procedure") and v0 is not None and v1 is v0:
+                        probs.append(f"attribute {a} (a mutable container updated in place) is shared with the original")
+            chk.ob(rule, f"{cname}.copy [{variant}]", not probs, fi.where, probs[:3] or "every attribute carried over", "every attribute carried over", line=fi.node.lineno,
+                   detail=f"{cname}.copy(): " + (probs[0] if probs else "") + " - every copied / scaled / propagated state takes this copy along: a dropped per-bond limit list is silently "
+                          "replaced by the uniform global limit at the next compression")
+
+
 def run(chk):
     src = chk.src
     chk.explanation = (
@@ -109,6 +169,8 @@ def run(chk):
                        "select_basis sorts candidates by singular value (sorted(..., reverse=True)) before choosing"]
     from . import tree_rules as TR
     TR.must_update(chk, src)
+    chk.rule("config-copy", "CompressConfig.copy() carries every attribute, the per-bond limit array as a copy of its own (abstract run)", 2)
+    config_copy_rule(chk, src, "config-copy")
     chk.rule("threshold-count", "threshold criterion = count of normalised singular values above the threshold (abstract run)", 1)
     from .mini_specs import threshold_count
     threshold_count(chk, src, "threshold-count")
